@@ -662,14 +662,18 @@ fn after(history: &[Op], inner: &Value, replayer: &(dyn Fn(&Value) -> Option<Vec
 /// Search the operation alphabet (and pairs over its failing operations) for a history after which
 /// the case shows its violation twice in a row; the extended case is replayable on its own.
 pub fn context_search(prop: &'static str, case: &Value, replayer: &(dyn Fn(&Value) -> Option<Vec<Violation>> + Sync)) -> Option<Value> {
-    if case["engine"] == json!("after-history") || case["engine"] == json!("history") || case["engine"] == json!("history-hold") {
+    // only for cases whose replay is cheap (one string, one build, one sweep case); the search has a
+    // time budget, and a case it cannot extend stays what it was: not reproducible
+    const CHEAP: [&str; 12] = ["string", "build", "spell", "c13-flavors", "flavor-monitors", "c10-flavors", "c08-name", "c08-maven-ns", "c08-maven-no-ns", "c15", "c18-forward", "pool-pair"];
+    if !CHEAP.contains(&case["engine"].as_str().unwrap_or("")) {
         return None;
     }
+    let started = std::time::Instant::now();
     let ops = alphabet(Tier::Quick);
     let shows = |h: &[Op]| after(h, case, replayer).map(|vs| vs.iter().any(|v| v.prop == prop)).unwrap_or(false);
     let found = std::sync::Mutex::new(None::<usize>);
     par_items(ops.len(), threads(), |i, _| {
-        if found.lock().unwrap().map(|f| f < i).unwrap_or(false) {
+        if found.lock().unwrap().map(|f| f < i).unwrap_or(false) || started.elapsed().as_secs() > 120 {
             return;
         }
         let h = [ops[i].clone()];
